@@ -397,6 +397,11 @@ def small_graphs(nmax):
     return out
 
 
+def _cands(n, ps):
+    """candidate indices with an interior probability: paths = 2^this"""
+    return sum(comb(n, d + 2, exact=True) for d, pr in enumerate(ps) if 0 < pr < 1)
+
+
 def spec(tier, seed):
     q = tier == "quick"
     units = []
@@ -411,10 +416,12 @@ def spec(tier, seed):
     pvals = [0, 0.5, 1]
     for n, maxd in ((3, 2), (4, 2), (5, 1)) if q else ((3, 2), (4, 3), (5, 2)):
         for ps in itertools.product(pvals, repeat=maxd):
-            units.append(("C16.gen", {"gen": "fast_random_hypergraph", "n": n, "ps": list(ps)}))
+            if _cands(n, ps) <= 12:
+                units.append(("C16.gen", {"gen": "fast_random_hypergraph", "n": n, "ps": list(ps)}))
     for n, maxd in ((3, 2), (4, 1)) if q else ((3, 2), (4, 2), (5, 1)):
         for ps in itertools.product(pvals, repeat=maxd):
-            units.append(("C16.gen", {"gen": "random_hypergraph", "n": n, "ps": list(ps)}))
+            if _cands(n, ps) <= 12:
+                units.append(("C16.gen", {"gen": "random_hypergraph", "n": n, "ps": list(ps)}))
     for n, m in ((3, 2), (4, 2), (5, 2), (4, 3)) if q else ((3, 2), (4, 2), (5, 2), (4, 3), (5, 3), (3, 3), (5, 4)):
         for pr in pvals:
             units.append(("C16.gen", {"gen": "uniform_erdos_renyi_hypergraph", "n": n, "m": m, "p": pr, "p_type": "prob", "multiedges": False}))
@@ -446,7 +453,8 @@ def spec(tier, seed):
                 units.append(("C16.gen", {"gen": "complete_hypergraph", "n": n, "kw": {"max_order": mo, "include_singletons": sing}}))
     for n, maxd in ((3, 2), (4, 2)) if q else ((3, 2), (4, 3)):
         for ps in itertools.product(pvals, repeat=maxd):
-            units.append(("C16.gen", {"gen": "random_simplicial_complex", "n": n, "ps": list(ps)}))
+            if _cands(n, ps) <= 12:
+                units.append(("C16.gen", {"gen": "random_simplicial_complex", "n": n, "ps": list(ps)}))
     for n, links in small_graphs(4):
         for p2 in (None, 0, 0.5, 1):
             units.append(("C16.gen", {"gen": "flag_complex_d2", "n": n, "links": links, "p2": p2}))
